@@ -229,7 +229,7 @@ def run(ctx):
         ix = hq.Index(b)
         size = ctx.const(fn + "::COPY_AT_ONCE_SIZE")
         ctx.check(size in (8, 16), RO, "chunk-size", b["file"], "chunk size is the size of the copy type", observed=size)
-        K = fn + "::COPY_AT_ONCE_SIZE"
+        K = str(size)          # (named constants are folded to their value in the normal form)
         mn = "core::cmp::Ord::min($0.1, $1.1)"
         wides = [x for x in hq.find(b["body"], lambda x: x.get("k") == "MethodCall" and x["name"] in ("write_unaligned", "read_unaligned"))]
         n_ok = 0
@@ -367,8 +367,12 @@ def run(ctx):
         pv = hq.Canon(cb, inline=True, force=True, max_depth=3)
         a0, a1 = H.show(hq.peel(csite["args"][0])), pv(csite["args"][1])
         ok = a1 in ("core::cmp::Ord::min($0, $1)", "core::cmp::Ord::min($0, copied_counter_left)") or a1.startswith("core::cmp::Ord::min($0, ")
-        s = H.show(cb["body"])
-        ok = ok and "start_idx += chunksize" in s and "copied_counter_left -= chunksize" in s and "while (copied_counter_left > 0)" in s
+        wl = [x for x in hq.find(cb["body"], lambda x: x.get("k") in ("While", "Loop", "For"))]
+        ups = [(x["op"], cix.canon(x["l"]), pv(x["r"])) for x in hq.find(cb["body"], lambda x: x.get("k") == "AssignOp")]
+        start = cix.canon(csite["args"][0])
+        rem = [u[1] for u in ups if u[0] == "-="]
+        ok = ok and len(wl) == 1 and wl[0]["k"] == "While" and len(rem) == 1 and cix.canon(wl[0]["cond"]) == "(0 != %s)" % rem[0] and \
+            sorted(ups) == sorted([("+=", start, a1), ("-=", rem[0], a1)])
         ctx.check(ok, RC, "repeat_in_chunks::chunk-is-min-and-start-advances", cb["file"],
                   "each chunk is min(offset, remaining) and start advances by the same amount as the buffer grows", observed=[a0, a1])
         carg = [ix.canon(a) for a in chunks["args"]]
